@@ -100,7 +100,11 @@ type EchPlan struct {
 	// options above). One host; no attempt succeeds (the scripted DialFunc has
 	// no *tls.Conn to give), so the request fails after the last attempt.
 	ViaTransport bool `json:"via_transport,omitempty"`
-	CallerNoALPN bool `json:"caller_no_alpn,omitempty"` // caller's config has no NextProtos
+	// CallerMaxVersion: the caller pins tls.Config.MaxVersion (a config written
+	// for a legacy peer); what crypto/tls makes of that together with an ECH
+	// list is the DialFunc's business, not Dial's.
+	CallerMaxVersion uint16 `json:"caller_max_version,omitempty"`
+	CallerNoALPN     bool   `json:"caller_no_alpn,omitempty"` // caller's config has no NextProtos
 }
 
 func recList(id int) []byte    { return echList(id, fmt.Sprintf("front%d.example", id)) }
@@ -551,6 +555,9 @@ func executeEch(t *testing.T, prop string, seed uint64, p *EchPlan) *core.Result
 		if p.CallerNoALPN {
 			caller.NextProtos = nil
 		}
+		if p.CallerMaxVersion != 0 {
+			caller.MinVersion, caller.MaxVersion = 0, p.CallerMaxVersion
+		}
 		if p.CallerECH > 0 {
 			caller.EncryptedClientHelloConfigList = callerList(p.CallerECH)
 		}
@@ -558,7 +565,7 @@ func executeEch(t *testing.T, prop string, seed uint64, p *EchPlan) *core.Result
 			// a list that is there but holds nothing (an empty setting decoded)
 			caller.EncryptedClientHelloConfigList = []byte{}
 		}
-		before = &tls.Config{ServerName: caller.ServerName, NextProtos: slices.Clone(caller.NextProtos), MinVersion: caller.MinVersion,
+		before = &tls.Config{ServerName: caller.ServerName, NextProtos: slices.Clone(caller.NextProtos), MinVersion: caller.MinVersion, MaxVersion: caller.MaxVersion,
 			EncryptedClientHelloConfigList: slices.Clone(caller.EncryptedClientHelloConfigList)}
 	}
 
@@ -997,7 +1004,7 @@ func judgeEch(res *core.Result, prop string, p *EchPlan, es *echState, caller, b
 			res.Fail(prop, "caller-config", "caller's tls.Config mutated: ServerName", "%q -> %q", before.ServerName, caller.ServerName)
 		case (caller.EncryptedClientHelloConfigList == nil) != (before.EncryptedClientHelloConfigList == nil) || !bytes.Equal(caller.EncryptedClientHelloConfigList, before.EncryptedClientHelloConfigList):
 			res.Fail(prop, "caller-config", "caller's tls.Config mutated: EncryptedClientHelloConfigList", "%s -> %s", listTag(before.EncryptedClientHelloConfigList, before.EncryptedClientHelloConfigList == nil), listTag(caller.EncryptedClientHelloConfigList, caller.EncryptedClientHelloConfigList == nil))
-		case !slices.Equal(caller.NextProtos, before.NextProtos) || caller.MinVersion != before.MinVersion || caller.InsecureSkipVerify:
+		case !slices.Equal(caller.NextProtos, before.NextProtos) || caller.MinVersion != before.MinVersion || caller.MaxVersion != before.MaxVersion || caller.InsecureSkipVerify:
 			res.Fail(prop, "caller-config", "caller's tls.Config mutated: other fields", "NextProtos %v MinVersion %#x", caller.NextProtos, caller.MinVersion)
 		}
 	}
